@@ -42,7 +42,7 @@ ASSUMPTIONS = ["'BitTorrent-shaped' and 'IPv8-shaped' are read from the property
                "once the outside socket is open, data cells from other IPs that carry the right keys are not restricted by the "
                "statement (only the *opening* is)"]
 REACH = ["emitted_allowed", "blocked_forbidden_outbound", "blocked_forbidden_inbound", "inbound_tunnelled_allowed",
-         "null_destination_dropped", "domain_resolved", "domain_failed", "ipv6_emitted", "colluder_refused", "queued_before_open", "null_destination_as_host_name", "reentry_through_own_circuit",
+         "null_destination_dropped", "domain_resolved", "domain_failed", "ipv6_emitted", "colluder_refused", "queued_before_open", "null_destination_as_host_name", "reentry_through_own_circuit", "lookalike_twins_back_to_back", "previous_hop_known_under_another_address",
          "flagset:0", "flagset:bt", "flagset:ipv8", "flagset:bt+ipv8"]
 
 BT, IPV8F, RELAY, SPEED = 2, 4, 1, 8
@@ -163,6 +163,16 @@ def execute(case: dict) -> dict:  # noqa: C901, PLR0915
         if xpeer is None:
             world.probe("exit_not_known")
             return
+        # the previous hop of the circuit-to-be is known to the exit from ANOTHER address as well (it roamed / is multi-homed): one of its
+        # genuine signed overlay messages reaches the exit from there.  The create itself will come from its present address.
+        prev = r if hops == 2 else o
+        old_addr = ("1.0.0.77", 8090)
+        olds = [p for p in tw.wire if p.src_node == prev.name and p.dst == x.address and len(p.data) > 23 and p.data[22] != 0
+                and p.data[:22] == own_prefix]
+        if olds and case.get("roamed", True):
+            net.inject(old_addr, x.address, olds[-1].data, label="roamed_signed")
+            await asyncio.sleep(0.3)
+            world.probe("previous_hop_known_under_another_address")
         circ = await tw.build_circuit(o, hops, required_exit=xpeer, tries=3)
         if circ is None:
             # an exit without any flag that makes it joinable simply refuses: nothing can be emitted
@@ -203,6 +213,20 @@ def execute(case: dict) -> dict:  # noqa: C901, PLR0915
             rel = r.ov.relay_from_to.get(circ.circuit_id)
             exit_cid = rel.circuit_id if rel is not None else None
         good = b"d" + b"colluder" + b"e"
+        if exit_cid is not None and olds and case.get("roamed", True):
+            # a correctly encrypted data cell arriving from that OTHER address must not open the outside socket
+            from ipv8.messaging.serialization import Serializer
+            ser0 = Serializer()
+            plain0 = b"\x01" + ser0.pack("address", ("9.9.9.9", 7000)) + ser0.pack("address", ("0.0.0.0", 0)) + b"d" + b"6:roamer" + b"e"
+            body0 = circ.hops[-1].keys.encrypt_str(plain0, 0)
+            net.inject(old_addr, x.address, own_prefix + b"\x00" + exit_cid.to_bytes(4, "big") + b"\x00\x00" + body0, label="roamer")
+            await asyncio.sleep(1.0)
+            es0 = x.ov.exit_sockets.get(exit_cid)
+            opened0 = [t for t in net.all_transports if t.owner == x.name and t.port != x.port and not t.closed]
+            if (es0 is not None and es0.enabled) or opened0:
+                c.violate("open_only_by_previous_hop", "outside_socket_opened_by_foreign_ip",
+                          f"exit socket enabled={es0.enabled if es0 else None}, transports={len(opened0)} after a data cell from {old_addr}, an "
+                          f"address the previous hop was once seen at; the create came from {prev.address}")
         if exit_cid is not None and hops == 2:
             from ipv8.messaging.serialization import Serializer
             ser = Serializer()
@@ -276,12 +300,26 @@ def execute(case: dict) -> dict:  # noqa: C901, PLR0915
         for p in st["canaries"]:
             o.call(o.ov.send_data, circ.hop.address, circ.circuit_id, dests[0], ("0.0.0.0", 0), p)
         await asyncio.sleep(1.0)
+        # --- look-alike twins, back to back: an allowed packet directly followed by a forbidden one with the same first 23 bytes and the
+        # same length (a bencoded query and the same bytes with a broken end; a tracker connect and the same header with another action)
+        twins = []
+        q = b"d1:ad2:id20:" + bytes(range(65, 85)) + b"e1:q4:ping1:t2:aa1:y1:qe"
+        twins.append((q, q[:-1] + b"x"))
+        q2 = b"d1:rd2:id20:" + bytes(range(97, 117)) + b"e1:t2:bb1:y1:re"
+        twins.append((q2, q2[:-2] + b"zz"))
+        st["twins"] = twins
+        for good_p, bad_p in twins:
+            for _ in range(2):
+                o.call(o.ov.send_data, circ.hop.address, circ.circuit_id, dests[0], ("0.0.0.0", 0), good_p)
+                o.call(o.ov.send_data, circ.hop.address, circ.circuit_id, dests[0], ("0.0.0.0", 0), bad_p)
+            world.probe("lookalike_twins_back_to_back")
+        await asyncio.sleep(1.0)
         # --- inbound sweep: the outside world talks to whatever sockets the exit has open
         outs = [t for t in net.all_transports if t.owner == x.name and t.port != x.port and not t.closed]
         st["exit_ports"] = {t.port for t in outs}
         k = 0
         for t in outs:
-            for p in payloads:
+            for p in [x for pair in st["twins"] for x in (pair[0], pair[1], pair[0], pair[1])] + payloads:
                 k += 1
                 if t.family == 10 or ":" in str(t.addr[0]):
                     net.inject(("2001:db8::9", 7000), t.addr, p, delay=0.001 + k * 1e-5, label="outside")
